@@ -18,6 +18,7 @@ EXPLANATION = (
     "R1.4b worklist termination: every pop/push worklist loop on the parse path either guards its pushes with a visited set that receives the same element (unroll_arg_requires), or is listed with the validity-gate assertion that excludes cycles, and that assertion is found in assert_app with its diverging false edge (unroll_args_in_group: every member of a group must be an ARGUMENT id, so groups cannot nest). "
     "NOT decided: that the audited invariants hold for every command the debug gate accepts; termination of other loops."
     ' R1.1 lemma: the name handed to the unwrapped _build_subcommand in parse_help_subcommand is find_subcommand(..).get_name() on the same command.'
+    " R1.1 lemma (added): the flag-subcommand lookups (possible_long_flag_subcommand, find_long_subcmd, find_short_subcmd) answer with get_name(), never with a found alias — Parser::parse unwraps find_subcommand(answer). R1.A accessor layer (lib/accessors.py): for the is_*_set / get_* accessors this property's rules name — the bool builder sets and unsets one flag on the right edges and the predicate reads that same flag; builder scope (global/local) as in audit/setting_scope.tsv; no two predicates/builders share a flag; setting/unset_setting/global_setting/is_set forward to the right flag word, the flag word is |=bit / &=!bit / &bit!=0 with bit = 1<<discriminant, _propagate_subcommand hands g_settings to the child's settings and g_settings; plain field getters return their field."
 )
 TRUSTED = ["rustc MIR", "clapfacts", "lib/vset.py", "lib/panics.py discharge rules", "audit/panic.tsv (each entry read, one reason per line)"]
 ASSUMPTIONS = ["user-supplied value parsers / closures do not panic", "sums of lengths, counters and small constants do not overflow usize",
